@@ -97,8 +97,10 @@ var extraAnchors = map[string][]string{
 	"C18": {"internal/app/referenceserver/impl.go", "internal/app/referenceclient/wire_details.go"},                                                                 // grpcStatusTrailers: the Connect error -> gRPC status form
 	"C16": {"internal/tracer/http2.go", "internal/tracer/reader.go"},                                                                                                // the HTTP/2 retry collector completes traces towards the Tracer
 	"C02": {"internal/app/referenceclient/wire_details.go", "internal/app/referenceserver/raw_response.go"},                                                         // every streaming request reaches the reference server's handlers through firstReqCachingStream
-	"C04": {"internal/app/connectconformance/test_trie.go", "internal/printer.go"},                                                                                  // the known-failing / known-flaky markings are trie matches; reference-peer feedback lines reach the runner through safePrinter
-	"C11": {"internal/delimited.go"},                                                                                                                                // the server's start-up response is read with ReadDelimitedMessage: garbage there must become a set-up error, not a crash
+	"C12": {"internal/printer.go"},                                                                                                                                  // feedback lines that name the test case are written through safePrinter
+	"C13": {"internal/tracer/reader.go"},                                                                                                                            // the end-stream content the examiners see is assembled by dataTracer
+	"C04": {"internal/app/connectconformance/test_trie.go", "internal/printer.go", "internal/app/connectconformance/process.go"},                                    // the known-failing / known-flaky markings are trie matches; reference-peer feedback lines reach the runner through safePrinter
+	"C11": {"internal/delimited.go", "internal/app/connectconformance/client_runner.go"},                                                                            // the server's start-up response is read with ReadDelimitedMessage: garbage there must become a set-up error, not a crash
 	"C07": {"internal/app/connectconformance/connectconformance.go"},                                                                                                // run() computes the run mode the permutations are filtered by
 	"C05": {"internal/app/connectconformance/test_trie.go"},                                                                                                         // the run/skip filter (filter.apply) is a trie match                                                                            // wire feedback fails a case whose result matched
 }
@@ -651,6 +653,7 @@ func anchoredGeneralRules(p *Prog, r *Report, propID string) {
 	round6GeneralRules(p, r, scope)
 	round7GeneralRules(p, r, scope)
 	round8GeneralRules(p, r, scope)
+	round9GeneralRules(p, r, scope)
 }
 
 // arityGuardRule: in both reference clients' Invoke, the calls of unary,
@@ -769,6 +772,9 @@ func crossPropertyRules(p *Prog, r *Report, propID string) {
 			extra(p, tmp)
 		}
 		for _, extra := range round8Rules[q] {
+			extra(p, tmp)
+		}
+		for _, extra := range round9Rules[q] {
 			extra(p, tmp)
 		}
 		for _, o := range tmp.Obls {
@@ -1053,32 +1059,56 @@ func resliceAliasRule(p *Prog, r *Report, key string, scope []*ssa.Function) {
 					}
 				}
 			}
+			// a buffer kept in a long-lived object (field reached through a pointer): harmless
+			// while it stays inside, an alias once the appended slice is RETURNED
+			persistent := ""
 			if foreign == "" {
-				return
-			}
-			// is the re-slice appended to?
-			appended := false
-			seen := map[ssa.Value]bool{}
-			var walk func(v ssa.Value)
-			walk = func(v ssa.Value) {
-				if seen[v] || v.Referrers() == nil {
-					return
-				}
-				seen[v] = true
-				for _, ref := range *v.Referrers() {
-					switch x := ref.(type) {
-					case *ssa.Phi:
-						walk(x)
-					case *ssa.Call:
-						if b, isB := x.Call.Value.(*ssa.Builtin); isB && b.Name() == "append" && x.Call.Args[0] == v {
-							appended = true
+				if u, isU := base.(*ssa.UnOp); isU && u.Op == token.MUL {
+					if fa, isFA := u.X.(*ssa.FieldAddr); isFA {
+						if _, isAl := fa.X.(*ssa.Alloc); !isAl {
+							persistent = "the buffer kept in field " + fieldName(fa.X.Type(), fa.Field) + " of " + path(fa.X)
 						}
 					}
 				}
 			}
-			walk(sl)
-			if appended {
+			if foreign == "" && persistent == "" {
+				return
+			}
+			// is the re-slice appended to? does the result leave the function?
+			appended, returned := false, false
+			type visit struct {
+				v   ssa.Value
+				app bool
+			}
+			seen := map[visit]bool{}
+			var walk func(v ssa.Value, app bool)
+			walk = func(v ssa.Value, app bool) {
+				if seen[visit{v, app}] || v.Referrers() == nil {
+					return
+				}
+				seen[visit{v, app}] = true
+				for _, ref := range *v.Referrers() {
+					switch x := ref.(type) {
+					case *ssa.Phi:
+						walk(x, app)
+					case *ssa.Call:
+						if b, isB := x.Call.Value.(*ssa.Builtin); isB && b.Name() == "append" && x.Call.Args[0] == v {
+							appended = true
+							walk(x, true)
+						}
+					case *ssa.Return:
+						if app {
+							returned = true
+						}
+					}
+				}
+			}
+			walk(sl, false)
+			if appended && foreign != "" {
 				bad = append(bad, p.InstrPos(in)+" in "+shortFn(fn)+": append to "+path(sl)+", a zero-length re-slice of "+foreign)
+			}
+			if appended && returned && persistent != "" {
+				bad = append(bad, p.InstrPos(in)+" in "+shortFn(fn)+": the slice built by appending to "+path(sl)+" ("+persistent+") is returned — the next call re-uses the same backing array and overwrites what the previous caller still holds")
 			}
 		})
 	}
